@@ -63,6 +63,8 @@ def regen():
 
 GENERATORS = [
     ("gen_packed", "miniconf/src/packed.rs", "Packed.lean"),
+    ("gen_consts", ("miniconf_mqtt/src/lib.rs", "py/miniconf-mqtt/miniconf/async_.py", "py/miniconf-mqtt/miniconf/sync.py",
+                    "py/miniconf-mqtt/miniconf/common.py"), "Consts.lean"),
 ]
 
 
@@ -291,15 +293,19 @@ class Report:
         return rc
 
 
-def paired_run(rep, cases, oracle, nontrivial, profile="dev", need_driver=True, max_report=5, canon_pair=None):
+def paired_run(rep, cases, oracle, nontrivial, profile="dev", need_driver=True, max_report=5, canon_pair=None,
+               impl_runner=None):
     """cases: list of case lines `<stream> <id> …`.  Runs impl and model, diffs, applies the
     oracle (impl only).  `oracle(case_line, impl_outcome) -> None | str(failure)`.
     `nontrivial(case_line, impl_outcome) -> hashable key | None`."""
-    ok, msg = build_harness(profile)
-    if not ok:
-        rep.violation("proof", {"what": "harness does not build against /repo", "log": msg}, no_input=True)
-        return None
-    rc, impl, err = run_lines(harness_bin(profile), cases)
+    if impl_runner is not None:
+        impl = impl_runner(cases)
+    else:
+        ok, msg = build_harness(profile)
+        if not ok:
+            rep.violation("proof", {"what": "harness does not build against /repo", "log": msg}, no_input=True)
+            return None
+        rc, impl, err = run_lines(harness_bin(profile), cases)
     ids = [c.split(" ", 2)[1] for c in cases]
     by_id = dict(zip(ids, cases))
     model = {}
@@ -350,3 +356,19 @@ def paired_run(rep, cases, oracle, nontrivial, profile="dev", need_driver=True, 
                           no_input=True)
     return {"impl": impl, "model": model, "diffs": len(diffs), "oracle_failures": len(fails),
             "distinct": len(keys), "hist": hist, "n": len(cases)}
+
+
+def run_pydriver(lines):
+    """the real Python client (py/miniconf-mqtt in /repo) driven through stub paho/aiomqtt packages"""
+    env = dict(ENV)
+    env["MINICONF_PY"] = os.path.join(REPO, "py", "miniconf-mqtt")
+    env["PYDRIVER_SYNC_FAST"] = "1"
+    data = ("\n".join(lines) + "\n").encode()
+    rc, out, err, dt = sh([sys.executable, os.path.join(VERIF, "pyharness", "pydriver.py")], input_bytes=data, env=env,
+                          timeout=3600)
+    res = {}
+    for l in out.split("\n"):
+        if l:
+            cid, _, rest = l.partition(" ")
+            res[cid] = rest
+    return res
